@@ -25,7 +25,7 @@ def to_hy(t, ind=0):
     k = t[0]
     sp = " "
     if k == "let":
-        b = " ".join(f"{n} {v}" for n, v in t[1])
+        b = " ".join(f"{n} {val_hy(v)}" for n, v in t[1])
         return f"(let [{b}] {body_hy(t[2])})"
     if k == "fn":
         return f"((fn [] {body_hy(t[1])}))"
@@ -43,11 +43,23 @@ def to_hy(t, ind=0):
         return f"(defn {t[1]} [] {body_hy(t[2])})"
     if k == "call":
         return f"({t[1]})"
+    if k == "lforx":
+        # the iterable is the variable of the same name in the enclosing scope
+        # (a generator expression: CPython 3.12.0-3.12.3 mis-compile the inlined list comprehension here, see below)
+        return f'(list (gfor {t[1]} [{t[1]}] (do (LOGV "{t[1]}" {t[1]}) 0)))'
     if k == "lfor":
         # only the iteration variable is logged inside (by value: CPython 3.12.0-3.12.3 mis-compile a lambda that captures
         # the iteration variable of an inlined comprehension when the enclosing function has a free variable of that name)
         return f'(lfor {t[1]} [{t[2]}] (do (LOGV "{t[1]}" {t[1]}) 0))'
     raise ValueError(k)
+
+
+def val_hy(v):
+    """A let-binding value: an integer, or ("closure", name): a function that logs `name` as seen at this point of the
+    binding list (the bindings of one let are sequential: later bindings of the same name must not be visible to it)."""
+    if isinstance(v, tuple) and v[0] == "closure":
+        return f'(fn [] (LOG "{v[1]}" (fn [] {v[1]})))'
+    return str(v)
 
 
 def body_hy(body):
@@ -104,6 +116,9 @@ def to_py(prog):
                     env2 = env + [frame]
                     for n, v in t[1]:
                         new = ren.fresh(n)
+                        if isinstance(v, tuple) and v[0] == "closure":
+                            r = resolve(v[1], env2)           # the bindings so far, not the one being made
+                            v = f"lambda: LOG({v[1]!r}, lambda: {r[0] if r else v[1]})"
                         emit(f"{new} = {v}", ind)
                         note(pyscope, new)
                         frame[n] = (new, pyscope)
@@ -118,7 +133,8 @@ def to_py(prog):
                     if k != "fn":
                         note(pyscope, fname)
                 elif k == "call":
-                    emit(f"{t[1]}()", ind)
+                    r = resolve(t[1], env)
+                    emit(f"{r[0] if r else t[1]}()", ind)
                 elif k == "class":
                     emit(f"class {t[1]}:", ind)
                     go(t[2], env, ind + 1, pyscope + (("class", me),))
@@ -162,6 +178,14 @@ def to_py(prog):
                         if target is None and n in assigned.get((), ()):
                             target = "global"
                         emit(f"{target or 'nonlocal'} {n}", ind)      # no binding at all: Python's own SyntaxError
+                elif k == "lforx":
+                    # the first iterable of a comprehension is evaluated in the enclosing scope
+                    r = resolve(t[1], env)
+                    emit(f"def _lf{me}(it):", ind)
+                    emit(f"for {t[1]} in it:", ind + 1)
+                    emit(f"LOGV({t[1]!r}, {t[1]})", ind + 2)
+                    emit("yield 0", ind + 2)
+                    emit(f"list(_lf{me}([{r[0] if r else t[1]}]))", ind)
                 elif k == "lfor":
                     # a generator function instead of an (inlined, PEP 709) comprehension: CPython 3.12.0-3.12.3 mis-compile
                     # functions in which a lambda refers to a free variable that is also a comprehension's iteration variable
@@ -263,6 +287,12 @@ def spine_programs(levels, pre_opts, post_opts, inner_opts, wrap_function=False)
                         yield pre_s + (("class", f"K{i}", rest),) + post_s
                     elif kind[0] == "lfor":
                         yield pre_s + (("lfor", kind[1], v(), NAMES),) + rest + post_s
+                    elif kind[0] == "lforx":
+                        yield pre_s + (("lforx", kind[1]),) + rest + post_s
+                    elif kind[0] == "let2":       # one let binding the same name twice, a closure captured in between
+                        n = kind[1]
+                        node = ("let", ((n, v()), (f"c{i}", ("closure", n)), (n, v())), rest + (("call", f"c{i}"),) + post_s)
+                        yield pre_s + (node,)
                     else:
                         raise ValueError(kind)
     v = Vals()
